@@ -2114,11 +2114,27 @@ class Gen:
             sl = self.w.graph(d)
             if sl is None:
                 return
-            for _ in range(rng.randint(1, 2)):
-                op = self.change_op(d, sl.model, rng.choice(("set_achange", "set_bchange")))
-                if op:
-                    # same centre as an existing change of s, if there is one
+            dropped = None
+            if m.achange and rng.random() < 0.7:
+                # the same centre as in s, but one ligand exchanged for another atom
+                c0 = rng.choice(sorted(m.achange))
+                r0 = rng.choice(sorted(m.achange[c0]))
+                d0 = m.achange[c0][r0]
+                lig = list(d0[1][1:])
+                real = [i for i, x in enumerate(lig) if x is not None]
+                others = [a for a in m.sorted_atoms() if a != c0 and a not in lig]
+                if real and others:
+                    j = rng.choice(real)
+                    dropped = lig[j]
+                    lig[j] = rng.choice(others)
+                    op = dict(k="set_achange", s=d, broken=None, fleeting=None, formed=None)
+                    op[rng.choice(ROLES).lower()] = model.list_desc((d0[0], (c0, *lig), d0[2]))
                     yield op
+            else:
+                for _ in range(rng.randint(1, 2)):
+                    op = self.change_op(d, sl.model, rng.choice(("set_achange", "set_bchange")))
+                    if op:
+                        yield op
             q = self.slot_id()
             yield dict(k="subgraph", src=rng.choice((s, d)), dst=q, atoms=m.sorted_atoms(), **{"as": "list"})
             if q in self.w.slots:
@@ -2132,12 +2148,15 @@ class Gen:
             if sle is not None:
                 me = sle.model
                 cuts = self.cut_sets(me)
-                S = list(rng.choice(cuts)) if cuts and rng.random() < 0.6 else me.sorted_atoms()
-                f = self.slot_id()
-                if self.room():
-                    yield dict(k="subgraph", src=e, dst=f, atoms=S, **{"as": rng.choice(("list", "set"))})
-                    if f in self.w.slots:
-                        yield dict(k="drop", s=f)
+                S = list(rng.choice(cuts)) if cuts and rng.random() < 0.4 else me.sorted_atoms()
+                if dropped is not None and dropped in me.atoms and rng.random() < 0.6:
+                    S = [a for a in me.sorted_atoms() if a != dropped]
+                for S_ in (S, me.sorted_atoms()):
+                    f = self.slot_id()
+                    if self.room():
+                        yield dict(k="subgraph", src=e, dst=f, atoms=list(S_), **{"as": rng.choice(("list", "set"))})
+                        if f in self.w.slots:
+                            yield dict(k="drop", s=f)
             for x in (d, e):
                 if x in self.w.slots and not self.w.slots[x].locks:
                     yield dict(k="drop", s=x)
